@@ -171,15 +171,19 @@ def remap_trace(R, trace):
     """express the branch conditions met inside the summarised loops in the per-bin vocabulary of the outputs
     (entry symbol of a loop-carried variable -> its value at bin i)."""
     maps = []
+    nodes = [sm.get("node") for k, sm in R.I.loop_summaries.items() if isinstance(k, int)]
     for k, sm in R.I.loop_summaries.items():
         if not isinstance(k, int): continue
         mp = dict(sm.get("remap") or {})
         iv = sm.get("ivar")
-        if mp or iv: maps.append((mp, iv))
+        nd = sm.get("node")
+        # a loop nested in another summarised loop runs over the starts of one bin: its induction variable is t, not the bin index i
+        inner = nd is not None and any(o is not None and o is not nd and any(c is nd for c in ast.walk(o)) for o in nodes)
+        if mp or iv: maps.append((mp, iv, "t" if inner else "i"))
     out = []
     for cond, pol in trace:
         c = cond
-        for mp, iv in maps:
+        for mp, iv, axis in maps:
             fv = values_cond_fvs(c) if not getattr(c, "flag", None) else set()
             plain = {k: v for k, v in mp.items() if k in fv and isinstance(v, X)}
             if plain:
@@ -188,7 +192,7 @@ def remap_trace(R, trace):
                 c = c2
             fv = values_cond_fvs(c)
             if iv in fv:
-                c2 = subst_cond(c, {iv: X.var("i")})
+                c2 = subst_cond(c, {iv: X.var(axis)})
                 if isinstance(c2, bool): c = None; break
                 c = c2
         if c is not None: out.append((c, pol))
